@@ -20,6 +20,8 @@ import SamVerif.Proofs.UpStop
 import SamVerif.Proofs.ProcStop
 import SamVerif.Gen.Session
 import SamVerif.Proofs.RedirStop
+import SamVerif.Proofs.TableReplace
+import SamVerif.Gen.Upstream
 namespace SamVerif.Props.C09
 open SamVerif.Listener
 
@@ -533,6 +535,45 @@ theorem session_loops_match_model :
       "FAIL: s.p.logger.Warnf(\"loop write exit: %v\", err)"] := by
   refine ⟨rfl, rfl, rfl⟩
 
+/-- **The code the model was written against.** The statements of the modelled functions,
+regenerated from the current source on every run, are the ones the model was written against;
+any edit to one of them makes this obligation fail and starts a search for a failing input. -/
+theorem table_removal_matches_model :
+    Gen.Upstream.createClient =
+      ["u.clientsMu.Lock()",
+      "select { case <-u.quit: u.clientsMu.Unlock() return nil, errors.New(upstreamExited) default: }",
+      "c, ok := u.loadClients()[addr]",
+      "u.clientsMu.Unlock()",
+      "if ok { return c, nil }",
+      "conn, err := netutil.Dial(\"tcp\", addr, *u.cfg.ConnectTimeout)",
+      "if err != nil { return nil, err }",
+      "options := []clientOption{ withKeyCounter(u.hkc.AllocCounter(addr)), withRedirectionCb(u.handleRedirection), withClusterDownCb(u.handleClusterDown), }",
+      "c, err = newClient(conn, u.cfg, u.logger, options...)",
+      "if err != nil { conn.Close() return nil, err }",
+      "u.clientsMu.Lock()",
+      "defer u.clientsMu.Unlock()",
+      "select { case <-u.quit: conn.Close() return nil, errors.New(upstreamExited) default: }",
+      "if existing, ok := u.loadClients()[addr]; ok { conn.Close() return existing, nil }",
+      "go func() { c.Start() u.removeEndedClient(addr, c) }()",
+      "u.addClientLocked(addr, c)",
+      "return c, nil"] ∧
+    Gen.Upstream.removeClient =
+      ["u.clientsMu.Lock()",
+      "defer u.clientsMu.Unlock()",
+      "u.removeClientLocked(addr)"] ∧
+    Gen.Upstream.removeEndedClient =
+      ["u.clientsMu.Lock()",
+      "defer u.clientsMu.Unlock()",
+      "if cur, ok := u.loadClients()[addr]; !ok || cur != c { return }",
+      "u.removeClientLocked(addr)"] ∧
+    Gen.Upstream.resetAllClients =
+      ["old := u.loadClients()",
+      "u.clientsMu.Lock()",
+      "u.updateClients(make(map[string]*client))",
+      "u.clientsMu.Unlock()",
+      "for _, client := range old { client.Stop() }"] := by
+  refine ⟨rfl, rfl, rfl, rfl⟩
+
 end SamVerif.Props.C09
 
 /-! ### stopping the Redis upstream while a read loop follows a redirection -/
@@ -686,6 +727,45 @@ example : ∃ s, run (start true 0 1) [.reply, .stop, .close, .aborted, .readerE
 
 end SamVerif.Props.C09r
 
+namespace SamVerif.Props.C09t
+open SamVerif.TableReplace
+
+/-- **No connection is left running after Stop** (F-09k, since 00e042f): after any history of requests making connections, host
+lists being replaced, backends closing connections and ended connections taking themselves out of the table, the Stop of the
+upstream — which stops what the table holds — leaves no connection running that nobody has told to stop. -/
+theorem stop_leaves_nothing_running (ls : List Label) (s s' : T) (hr : run {} ls = some s) (hs : step s .stop = some s') :
+    s'.running = [] := by
+  have h : Inv s := inv_run {} s ls (by refine ⟨rfl, ?_, ?_, ?_, ?_⟩ <;> simp) hr
+  obtain ⟨_, h1, _, _, _⟩ := h
+  simp only [step] at hs
+  split at hs
+  · rename_i id ht
+    cases hs
+    show s.running.filter (· != id) = []
+    rw [List.filter_eq_nil_iff]
+    intro a ha; have := h1 a ha; rw [ht] at this; cases this; simp
+  · cases hs
+    cases hr' : s.running with
+    | nil => rfl
+    | cons a as => rename_i ht; have := h1 a (by simp [hr']); rw [ht] at this; cases this
+
+/-- at most one connection per address is running at any time -/
+theorem at_most_one_running (ls : List Label) (s : T) (hr : run {} ls = some s) (a b : Nat) (ha : a ∈ s.running) (hb : b ∈ s.running) :
+    a = b := by
+  have h : Inv s := inv_run {} s ls (by refine ⟨rfl, ?_, ?_, ?_, ?_⟩ <;> simp) hr
+  have := h.2.1 a ha; rw [h.2.1 b hb] at this; cases this; rfl
+
+/-- **Before 00e042f** an ended connection removed whatever the table held for its address: the hosts are replaced while connection 0
+exists; before connection 0 has taken itself out, a request makes connection 1; connection 0 then removes connection 1 from the
+table; the next request makes connection 2; Stop stops connection 2 — connection 1 runs on, used and stopped by nobody. -/
+theorem old_removal_by_address_orphans_a_connection :
+    ∃ s, run { old := true } [.create, .replaceAll, .create, .ended 0, .create, .stop] = some s ∧ s.running = [1] := by
+  refine ⟨_, rfl, rfl⟩
+
+example : ∃ s, run {} [.create, .replaceAll, .create, .ended 0, .stop] = some s ∧ s.running = [] ∧ s.stopping = [1] := ⟨_, rfl, rfl, rfl⟩
+
+end SamVerif.Props.C09t
+
 #print axioms SamVerif.Props.C09.stop_releases
 #print axioms SamVerif.Props.C09.stop_never_stuck
 #print axioms SamVerif.Props.C09.winding_step_decreases
@@ -706,3 +786,7 @@ end SamVerif.Props.C09r
 #print axioms SamVerif.Props.C09.session_loops_match_model
 #print axioms SamVerif.Props.C09r.stop_returns_with_a_reader_in_a_full_queue
 #print axioms SamVerif.Props.C09r.old_send_ignores_its_own_quit
+#print axioms SamVerif.Props.C09t.stop_leaves_nothing_running
+#print axioms SamVerif.Props.C09t.at_most_one_running
+#print axioms SamVerif.Props.C09t.old_removal_by_address_orphans_a_connection
+#print axioms SamVerif.Props.C09.table_removal_matches_model
